@@ -72,7 +72,7 @@ where
 
         let count = intersection.size.width * intersection.size.height;
 
-        let mut colors = colors.into_iter();
+        let mut colors = colors.into_iter().fuse();
 
         if &intersection == area {
             // Draw the original iterator if no edge overlaps the framebuffer
